@@ -1,6 +1,6 @@
 (* C08 Package-type rules: pypi and nuget names, maven namespace, others untouched *)
 Load "coq/props/Hdr".
-From PM Require Import Lower2 Pypi C08rel C15.
+From PM Require Import Lower2 Pypi C08rel C15 More.
 Lemma src_cfg_ok : cfg_ok cfg. Proof. sc. Qed.
 (* nuget: every character replaced by its Unicode lower-case mapping, nothing else changed *)
 Theorem C08_nuget : forall n, utf8_valid n = true -> lowercase_str cfg n = spec_lower cfg n.
@@ -33,3 +33,8 @@ Proof.
     destruct (cs_try_from _ _); [|discriminate]. destruct (cs_to_text _); [|discriminate]. destruct (q_insert _ _ _ _); discriminate.
 Qed.
 Print Assumptions C08_maven.
+(* identically from the builder: build() applies the same rule, and leaves namespace, version and subpath alone *)
+Theorem C08_builder_applies_rule : forall t p t' p', build cfg P t p = Ok (t', p') ->
+  t' = t /\ p_name p' = rule cfg t (p_name p) /\ p_ns p' = p_ns p /\ p_ver p' = p_ver p /\ p_sub p' = p_sub p.
+Proof. apply C08_build_rule. Qed.
+Print Assumptions C08_builder_applies_rule.
